@@ -1013,7 +1013,7 @@ func (e *lsEnv) step(c lsCmd, which string, history []string) (res lsStepResult)
 			}
 			if dup || rootErr {
 				// "if two discovered repositories would get the same name the command fails before changing the index"
-				key, what := "sync:bad-root-accepted", "a root is missing, not a directory or repeated"
+				key, what := "sync:bad-root-accepted", "a root is missing, not a directory, repeated, or a repository under it would get the empty name"
 				var cs []string
 				if dup {
 					where := "cross-root"
